@@ -288,8 +288,15 @@ class MassMatrixAdaptor(Adaptor):
             "mean": self.variance_estimator._mean.tolist(),
             "variance": self.variance_estimator._variance.tolist(),
             "samples": self.variance_estimator.samples,
+            # samples still inside the window (variance_window)
+            "values": [x.tolist() for x in self._values],
         }
         state_dict.update(state_dict_estimator)
+        # the estimator being filled for the next swap (swap_every)
+        if self.variance_estimator2 is not None:
+            state_dict["mean2"] = self.variance_estimator2._mean.tolist()
+            state_dict["variance2"] = self.variance_estimator2._variance.tolist()
+            state_dict["samples2"] = self.variance_estimator2.samples
         return state_dict
 
     def load_state_dict(self, state_dict: dict[str, Any]) -> None:
@@ -301,6 +308,13 @@ class MassMatrixAdaptor(Adaptor):
         }
         self.variance_estimator._mean = torch.tensor(state_dict["mean"], **info)
         self.variance_estimator._variance = torch.tensor(state_dict["variance"], **info)
+        self._values = deque(torch.tensor(x, **info) for x in state_dict["values"])
+        if self.variance_estimator2 is not None:
+            self.variance_estimator2.samples = state_dict["samples2"]
+            self.variance_estimator2._mean = torch.tensor(state_dict["mean2"], **info)
+            self.variance_estimator2._variance = torch.tensor(
+                state_dict["variance2"], **info
+            )
 
     @classmethod
     def from_json(cls, data, dic):
